@@ -147,6 +147,36 @@ func main() {
 		}
 	}
 	{
+		// resp.bulkCopy: every argument parseRESP hands out is a slice of its own: the payload is read with
+		// io.ReadFull into a buffer made for it; no window into the bufio buffer (Peek / ReadSlice / Discard /
+		// Buffered) anywhere in parseRESP or readBulk, and readBulk only ever returns `buf`.
+		alias := false
+		for _, src := range []string{prSrc, sv.Src(body(rb))} {
+			for _, bad := range []string{".Peek(", ".ReadSlice(", ".Discard(", ".Buffered(", ".ReadLine("} {
+				if strings.Contains(src, bad) {
+					alias = true
+				}
+			}
+		}
+		retOK := true
+		if rb != nil {
+			ast.Inspect(rb.Body, func(x ast.Node) bool {
+				if rs, ok := x.(*ast.ReturnStmt); ok && len(rs.Results) == 2 {
+					if r0 := sv.Src(rs.Results[0]); r0 != "nil" && r0 != "buf" {
+						retOK = false
+					}
+				}
+				return true
+			})
+			if !strings.Contains(sv.Src(rb.Body), "io.ReadFull(r, buf[filled:])") {
+				retOK = false
+			}
+		} else if !strings.Contains(prSrc, "io.ReadFull(r, buf)") {
+			retOK = false
+		}
+		o.Set("resp.bulkCopy", aParse, "copy", pr != nil && !alias && retOK && strings.Contains(prSrc, "out = append(out, buf)"), "copy")
+	}
+	{
 		// no other allocation sized by input in the framing code
 		known := map[string]bool{"make([][]byte, 0, n)": true, "make([][]byte, 0, min(n, maxArrayPrealloc))": true,
 			"make([][]byte, 0, min(maxArrayPrealloc, n))": true, "make([]byte, l)": true, "make([][]byte, len(fields))": true}
